@@ -22,6 +22,16 @@ def points(tier):
                             for hs in seeds:
                                 out.append({'mode': mode, 'workers': workers, 'hostname': hostname, 'hostnames': hostnames,
                                             'port': port, 'ports': ports, 'unix': unix, 'files': files, 'hashseed': hs})
+    # --ports naming the DEFAULT value of --port while --port itself is unused (unix socket) or different
+    extra = []
+    for mode in ('threaded', 'local', 'remote'):
+        for unix, port in ((True, None), (True, 0), (True, 'P'), (False, 'P')):        # None: --port not given at all
+            for ports in (['D'], ['D', 'A'], ['A', 'D']):
+                for files in (False, True):
+                    extra.append({'mode': mode, 'workers': 1, 'hostname': '127.0.0.1', 'hostnames': [], 'port': port, 'ports': ports,
+                                  'unix': unix, 'files': files, 'hashseed': 0})
+    if tier == 'quick':
+        extra = [p for i, p in enumerate(extra) if p['files'] and (i // 2) % 3 == ['threaded', 'local', 'remote'].index(p['mode'])]
     if tier == 'quick':
         # every option value, every --ports shape and every mode, pairwise rather than the full product
         sel = []
@@ -34,7 +44,7 @@ def points(tier):
                 if p['hashseed'] in (0, 1):
                     sel.append(p)
         out = sel
-    return out
+    return out + extra
 
 
 def judge(pt, r):
@@ -42,6 +52,8 @@ def judge(pt, r):
     v = []
     if 'harness_error' in r:
         return [('harness_error', r)]
+    if r.get('skipped'):
+        return []
     if 'exception' in r:
         return [('start_or_shutdown_raised', {'exception': r['exception'], 'traceback': r.get('traceback')})]
     bound_ports = sorted(set(p for _h, p in r['bound']))
@@ -113,8 +125,8 @@ def run(tier):
         for sym, detail in verdicts:
             if sym == 'harness_error':
                 herr += 1
-            shape = ','.join('0' if x == 0 else 'fixed' for x in pt['ports']) or 'none'
-            feats = {'symptom': sym, 'mode': pt['mode'], 'ports_shape': shape, 'port': 'os' if pt['port'] == 0 else 'fixed',
+            shape = ','.join('0' if x == 0 else ('default' if x == 'D' else 'fixed') for x in pt['ports']) or 'none'
+            feats = {'symptom': sym, 'mode': pt['mode'], 'ports_shape': shape, 'port': 'absent' if pt['port'] is None else ('os' if pt['port'] == 0 else 'fixed'),
                      'multi_address': bool(pt['hostnames']), 'unix': pt['unix']}
             k = tuple(sorted(feats.items()))
             if k in seen:
